@@ -939,7 +939,10 @@ fn validity(
     config: &Config,
 ) -> Result<Duration, Error> {
     let Ok(msg) = response else {
-        return Ok(config.transport_failure_duration);
+        return Ok(min(
+            config.max_validity,
+            config.transport_failure_duration,
+        ));
     };
 
     if msg.header().tc() && !config.cache_truncated {
